@@ -200,6 +200,9 @@ def run_sync(spec: dict, history: List[list], opts: Optional[dict] = None) -> Ru
                         extra["can"] = interp.can(op[1])
                     elif op[0] == "snap":
                         extra["snap"] = interp.get_snapshot()
+                    elif op[0] == "psnap":
+                        extra["psnap"] = interp.get_persisted_snapshot()
+                        extra["psnap_copy"] = copy.deepcopy(extra["psnap"])
                     elif op[0] == "restore":
                         # crash/resume: snapshot, throw the interpreter away, restore into a fresh
                         # interpreter over a freshly built machine definition
@@ -216,6 +219,7 @@ def run_sync(spec: dict, history: List[list], opts: Optional[dict] = None) -> Ru
                             interp.subscribe(make_subscriber(rec))
                             interp.on("*", make_emit_listener(rec))
                         old.stop()
+                        extra["resnap"] = interp.get_snapshot()
                     else:
                         raise ValueError(op)
                     if sched and op[0] != "advance":
@@ -316,6 +320,7 @@ def run_async(spec: dict, history: List[list], opts: Optional[dict] = None) -> R
 
     async def main(loop):
         rec = Recorder(budget=opts.get("budget", 5000), clock=loop.time)
+        rec.iter_fn = lambda: loop.iterations
         rec.fault_plan = set(opts.get("faults") or [])
         rec.record_sites = bool(opts.get("record_sites"))
         run.rec = rec
@@ -362,6 +367,9 @@ def run_async(spec: dict, history: List[list], opts: Optional[dict] = None) -> R
                         extra["can"] = interp.can(op[1])
                     elif op[0] == "snap":
                         extra["snap"] = interp.get_snapshot()
+                    elif op[0] == "psnap":
+                        extra["psnap"] = interp.get_persisted_snapshot()
+                        extra["psnap_copy"] = copy.deepcopy(extra["psnap"])
                     elif op[0] == "restore":
                         snap_s = interp.get_snapshot()
                         extra["snap"] = snap_s
@@ -377,6 +385,7 @@ def run_async(spec: dict, history: List[list], opts: Optional[dict] = None) -> R
                             interp.subscribe(make_subscriber(rec))
                             interp.on("*", make_emit_listener(rec))
                         await old.stop()
+                        extra["resnap"] = interp.get_snapshot()
                         await interp.start()
                     else:
                         raise ValueError(op)
